@@ -235,7 +235,10 @@ def streams(tier, rng, P, only=None, cases=None):
                 src = head + "\n" + kw + rng.choice([" ", "\n", " ; "]) + tail
                 cs.append(dict(req="compile2 %s %s" % (hx(src), hx(head + "\n")), src=src, show=src[:300], kind="end", headerr=headerr, key="m%d" % i))
             else:
-                src = rng.choice(["FOR(INT I=0;I<2;I++){c}", "PRINT(1,,2)", "INT A=(1 ? 2)", "WHILE(0){ }", "Foo(1)", "c !d", "System.Unknown(1)", "PRINT(MID({a},1))"])
+                src = rng.choice(["FOR(INT I=0;I<2;I++){c}", "PRINT(1,,2)", "INT A=(1 ? 2)", "WHILE(0){ }", "Foo(1)", "c !d", "System.Unknown(1)", "PRINT(MID({a},1))",
+                                  # expressions laid out over lines, stray characters inside conditions and argument lists
+                                  "FUNCTION FOO(A,B){ RETURN(A+B); }\nINT X = FOO(3,\n            5)\nPRINT(X)\nc d e", "INT X=8 IF(X == 8\n){ c }", "IF(1 ?){c}", "INT X=0 WHILE(X<3 @){ X++ }",
+                                  "PRINT(1 +\n 2)", "FUNCTION G(A){ RETURN(A) } G(1 ! 2) PRINT(G(3 $))", "FOR(INT I=0; I<2 ~; I++){ c }", "INT A=(1\n+2\n) PRINT(A)", "IF(\n1\n){ d }ELSE{ e }"])
                 cs.append(dict(req="run " + hx(src), src=src, show=src, kind="stdout", key="m%d" % i))
         return cs
     def misc_judge(c, impl, m):
